@@ -113,6 +113,8 @@ def run_case(rng, tier, idx):
     nx = int(rng.integers(2, nmaxg + 1)); ny = int(rng.integers(2, nmaxg + 1))
     NLgeom = bool(rng.random() < 0.5)
     mode = str(rng.choice(['random_state', 'random_state', 'uniform_state', 'per_point_table', 'varying_table']))
+    if mode in ('per_point_table', 'varying_table') and rng.random() < 0.5:
+        ny = nx          # square grids: a table indexed [iy, ix] instead of [ix, iy] has the right shape there
     c.desc.update(nx=nx, ny=ny, NLgeom=NLgeom, mode=mode)
     c.tag('mode:' + mode, 'NLgeom' if NLgeom else 'lin')
     size = d['size']
